@@ -271,7 +271,6 @@ func DumpLayout(p *an.Prog) {
 	}
 }
 
-
 type layRef struct {
 	pkg, recv, name, base string
 }
@@ -317,10 +316,10 @@ var layGroups = []layGroup{
 
 // layShifted: record A restricted to [lo,hi) is, by construction, record B (the code slices one out of the other).
 var layShifted = []struct {
-	why      string
-	a        layRef
-	lo, hi   int
-	b        layRef
+	why    string
+	a      layRef
+	lo, hi int
+	b      layRef
 }{
 	{"fetchTxRecordKeyFromRawCreditKey returns creditKey[0:72] as a tx-record key", tx("keyCredit", "make:76"), 0, 72, tx("keyTxRecord", "make:72")},
 	{"fetchNsUnspentValueFromRawCredit returns creditKey[32:72] as an unspent value; existsRawUnspent pastes the unspent value into creditKey[32:72]", tx("keyCredit", "make:76"), 32, 72, tx("valueUnspent", "make:40")},
